@@ -81,7 +81,7 @@ def main(tier, seed=0):
     if tier == "quick":
         runs = [C10Spec("astd", 3, ("s", "a")), C10Spec("sync", 4, ("s",))]
     else:
-        runs = [C10Spec("astd", 4, ("s", "a")), C10Spec("sync", 5, ("s",)), C10Spec("tok", 3, ("s", "a"))]
+        runs = [C10Spec("astd", 5, ("s", "a")), C10Spec("sync", 6, ("s",)), C10Spec("tok", 4, ("s", "a"))]
     total = None
     merr_all = []
     capped_any = False
